@@ -67,8 +67,9 @@ def build(rng: random.Random, combo: tuple, transport: str, order: str) -> dict:
     # the verdict came first in stream order, so the specific error is still what the call must raise
     trailer = None
     if order in ("normal", "split", "one_by_one") and rng.random() < 0.3:
-        trailer = pick(rng, ["dev_disconnect", "bad_payload", "dev_disconnect+state", "fin", "fin"])  # (a reset could discard the verdict unread)
-        tmsgs: list = {"dev_disconnect": [["DisconnectRequest", {}]], "bad_payload": [{"type": 10, "payload_hex": "0aff01", "name": "#bad_payload"}], "dev_disconnect+state": [["DisconnectRequest", {}], ["SwitchStateResponse", {"key": 1, "state": True}]], "fin": []}[trailer]
+        trailer = pick(rng, ["dev_disconnect", "bad_payload", "dev_disconnect+state", "fin", "fin"] + (["second_verdict"] * 2 if login else []))  # (a reset could discard the verdict unread)
+        # second_verdict: a further login answer saying the opposite sits behind the verdict - the first answer is the device's
+        tmsgs: list = {"dev_disconnect": [["DisconnectRequest", {}]], "bad_payload": [{"type": 10, "payload_hex": "0aff01", "name": "#bad_payload"}], "dev_disconnect+state": [["DisconnectRequest", {}], ["SwitchStateResponse", {"key": 1, "state": True}]], "fin": [], "second_verdict": [["ConnectResponse", {"invalid_password": not bad_pw}]]}[trailer]
         last_req, last_msg = ("ConnectRequest", cr) if login else ("HelloRequest", hr)
         rep = device.setdefault("replies", {}).get(last_req)
         if rep and isinstance(rep[0], dict):
